@@ -523,6 +523,22 @@ def litrow(v: fp.Real) -> tuple[list[fp.Real], fp.Real]:
     u[0] = u[0] + v
     return (row, u[0] + u[1])
 
+
+@fp.fpy
+def q_a16(x: fp.Real) -> fp.Real:
+    # two functions alike but for the context of their block: what a derived copy keeps of its
+    # context (`simplify` leaves it in the program as a value) must stay with that copy
+    with fp.FP16:
+        y = x * 1 + 0
+    return y
+
+
+@fp.fpy
+def q_b8(x: fp.Real) -> fp.Real:
+    with RAZ8:
+        y = x * 1 + 0
+    return y
+
 # ---- derivations by user rewrite rules (expression rewrites keep the statement: no statement edit) ----
 
 @fp.pattern
@@ -566,6 +582,8 @@ def muladd16(a: fp.Real, b: fp.Real, c: fp.Real) -> tuple[fp.Real, fp.Real]:
 
 
 SIG = {
+    'q_a16': ['num'],
+    'q_b8': ['num'],
     'fill': ['bit', 'bit', 'num'],
     'tally': ['num', 'num'],
     'litrow': ['num'],
@@ -662,6 +680,8 @@ FAILING = ['asserting', 'indexer', 'exact_or_fail', 'calls_failing', 'via_picky'
 
 # strategies that may be applied to each function (name -> list of (strategy, kwargs))
 DERIVABLE = {
+    'q_a16': [('simplify', {}), ('lift_context', {})],
+    'q_b8': [('simplify', {}), ('lift_context', {})],
     'muladd': [('rw_fma', {}), ('rw_fma', {}), ('simplify', {})],
     'muladd16': [('rw_fma', {}), ('rw_dbl', {}), ('rw_fma', {})],
     'uses_closure': [('inline', {}), ('simplify', {})],
